@@ -1186,6 +1186,45 @@ func (f *frame) loopScope(li *loopInfo, st *State, ov map[ssa.Value]Sym) *Scope 
 	sc.resolver = func(name string) (tv, bool) {
 		v := f.resolveLocal(name, li.header)
 		if v == nil {
+			// range loops: the index variable is `rangeindex + 1`, computed in the header right after the phi
+			var cands []ssa.Instruction
+			for _, blk := range f.fn.Blocks {
+				if li.body[blk] {
+					cands = append(cands, blk.Instrs...)
+				}
+			}
+			for _, in := range cands {
+				d, ok := in.(*ssa.DebugRef)
+				if !ok || d.Object() == nil || d.Object().Name() != name {
+					continue
+				}
+				bo, ok := d.X.(*ssa.BinOp)
+				if !ok || (bo.Op != token.ADD && bo.Op != token.SUB) {
+					continue
+				}
+				phi, ok1 := bo.X.(*ssa.Phi)
+				c, ok2 := bo.Y.(*ssa.Const)
+				if !ok1 || !ok2 || phi.Block() != li.header || c.Value == nil {
+					continue
+				}
+				var ps Sym
+				if s, ok := ov[phi]; ok && ov != nil {
+					ps = s
+				} else if s, ok := f.env[phi]; ok {
+					ps = s
+				} else {
+					continue
+				}
+				pt, ok := ps.(sv)
+				if !ok {
+					continue
+				}
+				op := "+"
+				if bo.Op == token.SUB {
+					op = "-"
+				}
+				return tv{sv{fmt.Sprintf("(%s %s %d)", op, pt.t, c.Int64())}, bo.Type()}, true
+			}
 			return tv{}, false
 		}
 		if ov != nil {
